@@ -102,6 +102,7 @@ fn main() {
         "c09" => c09::run(&mut ctx),
         "c10" | "c01" => c10::run(&mut ctx),
         "c02h3" => c02h3::run(&mut ctx),
+        "c10h3" | "c01h3" => c10::run_h3(&mut ctx),
         "c14est" => c10::run_establish(&mut ctx),
         "c14live" => c14live::run(&mut ctx),
         "c11" => c11::run(&mut ctx),
